@@ -39,6 +39,9 @@ SCHED_CHOICES = [
     {"policy": "pct", "sticky": 0.0, "preempt": "line", "p": 0.05},
     {"policy": "pct", "sticky": 0.0, "preempt": "call", "p": 0.2},
     {"policy": "random", "sticky": 0.9, "preempt": "line", "p": 0.2},
+    {"policy": "demote", "sticky": 0.0, "preempt": "line", "p": 0.01},
+    {"policy": "demote", "sticky": 0.0, "preempt": "line", "p": 0.05},
+    {"policy": "demote", "sticky": 0.0, "preempt": "call", "p": 0.1},
 ]
 
 
